@@ -99,6 +99,39 @@ func OptionalDerefs(fn *ssa.Function, want func(owner, field string) bool) []Opt
 					guarded = true
 				}
 			}
+			if !guarded {
+				// path form: every path to the dereference passes a `p != nil` edge or a store of a fresh value into the field
+				// (idiom: if x.F == nil { x.F = &T{} }; x.F.G = ...)
+				addrStr := TermOf(fa).String()
+				reach, _ := CanReach(Entry(fn), func(x ssa.Instruction) bool { return x == in }, ReachOpts{
+					CutEdge: func(b *ssa.BasicBlock, k int) bool {
+						if len(b.Instrs) == 0 || len(b.Succs) != 2 {
+							return false
+						}
+						ifi, ok := b.Instrs[len(b.Instrs)-1].(*ssa.If)
+						if !ok {
+							return false
+						}
+						f := FactOf(ifi.Cond, k == 0)
+						return f.Op == "!=" && ((f.R.Op == "const" && f.R.Name == "nil" && f.L.String() == ps) || (f.L.Op == "const" && f.L.Name == "nil" && f.R.String() == ps))
+					},
+					CutInstr: func(x ssa.Instruction) bool {
+						st, ok := x.(*ssa.Store)
+						if !ok {
+							return false
+						}
+						sfa, ok := st.Addr.(*ssa.FieldAddr)
+						if !ok || TermOf(sfa).String() != addrStr {
+							return false
+						}
+						_, fresh := st.Val.(*ssa.Alloc)
+						return fresh
+					},
+				})
+				if !reach {
+					guarded = true
+				}
+			}
 			if guarded {
 				continue
 			}
